@@ -51,6 +51,12 @@ type ReportCase struct {
 	Vars    [][2]string `json:"vars"`
 	Tasks   []RTask     `json:"tasks"`
 	Actions []RAction   `json:"actions"`
+	// DotEnv: a .env file sits next to the spokfile (it changes the environment of commands, not
+	// what spok prints)
+	DotEnv bool `json:"dotenv,omitempty"`
+	// Nested: spok is started in <project>/docs ("plain"), which may itself hold a directory
+	// called spokfile ("decoy"); the spokfile is found by climbing
+	Nested string `json:"nested,omitempty"`
 }
 
 var reportNames = []string{"default", "build", "lint", "test", "zeta", "Apple"}
@@ -66,6 +72,10 @@ func genReport(t *rapid.T) ReportCase {
 	c := genReportBody(t)
 	c.ProjDir = genProjDir(t)
 	c.Invoke = genInvoke(t)
+	c.DotEnv = rapid.IntRange(0, 2).Draw(t, "dotenv") == 0
+	if c.Invoke == "" && rapid.IntRange(0, 2).Draw(t, "nested") == 0 {
+		c.Nested = rapid.SampledFrom([]string{"plain", "decoy"}).Draw(t, "nested_kind")
+	}
 	return c
 }
 
@@ -241,7 +251,20 @@ func execReport(s *ev.Shard, b *sandbox.Box, c ReportCase) *rp.Fail {
 		return &rp.Fail{Sig: "harness", Msg: err.Error()}
 	}
 	src := c.source()
-	if err := writeProject(b, b.Proj, map[string]string{"spokfile": src, "in.txt": "input"}); err != nil {
+	files := map[string]string{"spokfile": src, "in.txt": "input"}
+	if c.DotEnv {
+		files[".env"] = "FROM_DOTENV=yes\nOTHER_ONE=\"two words\"\n"
+	}
+	cwd := b.Proj
+	switch c.Nested {
+	case "plain":
+		files["docs/"] = ""
+		cwd = filepath.Join(b.Proj, "docs")
+	case "decoy":
+		files["docs/spokfile/example.txt"] = "not a spokfile"
+		cwd = filepath.Join(b.Proj, "docs")
+	}
+	if err := writeProject(b, b.Proj, files); err != nil {
 		return &rp.Fail{Sig: "harness", Msg: err.Error()}
 	}
 	logPath := filepath.Join(b.Home, "run.log")
@@ -293,11 +316,11 @@ func execReport(s *ev.Shard, b *sandbox.Box, c ReportCase) *rp.Fail {
 
 	for ai, a := range c.Actions {
 		_ = os.Remove(logPath)
-		desc := fmt.Sprintf("spokfile:\n%saction %d of %v", src, ai, c.Actions)
+		desc := fmt.Sprintf("spokfile:\n%s(.env present: %v, started in: %s) action %d of %v", src, c.DotEnv, map[string]string{"": "the project", "plain": "docs/", "decoy": "docs/ (which holds a directory called spokfile)"}[c.Nested], ai, c.Actions)
 		switch a.Kind {
 		case "json", "quiet":
 			flag := "--" + a.Kind
-			r := b.Run(b.Proj, env, runTimeout, append([]string{flag}, a.Tasks...)...)
+			r := b.Run(cwd, env, runTimeout, append([]string{flag}, a.Tasks...)...)
 			if r.TimedOut {
 				return &rp.Fail{Sig: "harness", Msg: "spok timed out"}
 			}
@@ -384,7 +407,7 @@ func execReport(s *ev.Shard, b *sandbox.Box, c ReportCase) *rp.Fail {
 			}
 			markDone(a.Tasks)
 		case "show":
-			r := b.Run(b.Proj, env, runTimeout, "--show")
+			r := b.Run(cwd, env, runTimeout, "--show")
 			if r.Exit != 0 {
 				return &rp.Fail{Sig: "valid-run-failed", Size: size, Msg: fmt.Sprintf("%s: `spok --show` failed: %s", desc, sandbox.Strip(r.Stderr))}
 			}
@@ -395,7 +418,7 @@ func execReport(s *ev.Shard, b *sandbox.Box, c ReportCase) *rp.Fail {
 				return &rp.Fail{Sig: "show-ran-tasks", Size: size, Msg: fmt.Sprintf("%s: --show ran commands: %v", desc, readLog(logPath))}
 			}
 		case "vars":
-			r := b.Run(b.Proj, env, runTimeout, "--vars")
+			r := b.Run(cwd, env, runTimeout, "--vars")
 			if r.Exit != 0 {
 				return &rp.Fail{Sig: "valid-run-failed", Size: size, Msg: fmt.Sprintf("%s: `spok --vars` failed: %s", desc, sandbox.Strip(r.Stderr))}
 			}
@@ -418,7 +441,7 @@ func execReport(s *ev.Shard, b *sandbox.Box, c ReportCase) *rp.Fail {
 				}
 			}
 		case "noargs":
-			r := b.Run(b.Proj, env, runTimeout)
+			r := b.Run(cwd, env, runTimeout)
 			if r.Exit != 0 {
 				return &rp.Fail{Sig: "valid-run-failed", Size: size, Msg: fmt.Sprintf("%s: `spok` without arguments failed: %s", desc, sandbox.Strip(r.Stderr))}
 			}
@@ -439,7 +462,7 @@ func execReport(s *ev.Shard, b *sandbox.Box, c ReportCase) *rp.Fail {
 				if f := showExpect(desc+" (no arguments, no default task)", r.Stdout); f != nil {
 					return f
 				}
-				r2 := b.Run(b.Proj, env, runTimeout, "--show")
+				r2 := b.Run(cwd, env, runTimeout, "--show")
 				if r2.Stdout != r.Stdout {
 					return &rp.Fail{Sig: "noargs-differs-from-show", Size: size, Msg: fmt.Sprintf("%s: output without arguments differs from --show:\n%q\n%q", desc, r.Stdout, r2.Stdout)}
 				}
